@@ -18,7 +18,9 @@
 use std::cell::RefCell;
 use std::fmt::Debug;
 
+use dupe::Dupe;
 use starlark_map::unordered_map::UnorderedMap;
+use starlark_syntax::lexer::TokenInt;
 use starlark_syntax::slice_vec_ext::SliceExt;
 use starlark_syntax::syntax::ast::AssignOp;
 use starlark_syntax::syntax::ast::AssignTargetP;
@@ -49,6 +51,7 @@ use crate::typing::fill_types_for_lint::ModuleVarTypes;
 use crate::typing::oracle::ctx::TypingOracleCtx;
 use crate::typing::oracle::traits::TypingBinOp;
 use crate::typing::oracle::traits::TypingUnOp;
+use crate::typing::tuple::TyTuple;
 use crate::typing::ty::Approximation;
 use crate::typing::ty::Ty;
 use crate::values::types::bytes::value::StarlarkBytes;
@@ -142,6 +145,18 @@ impl TypingContext<'_> {
                 if v0.ident == "list" {
                     // TODO: make this "eval_type" or something.
                     return Ok(Ty::any());
+                }
+            }
+        }
+
+        // A fixed-arity tuple indexed by an integer literal has the type of that element
+        // (as in unpacking assignment), not the union of all elements.
+        if let ([TyBasic::Tuple(TyTuple::Elems(elems))], ExprP::Literal(AstLiteral::Int(i))) =
+            (array_ty.iter_union(), &index.node)
+        {
+            if let TokenInt::I32(i) = &i.node {
+                if let Some(ty) = usize::try_from(*i).ok().and_then(|i| elems.get(i)) {
+                    return Ok(ty.dupe());
                 }
             }
         }
